@@ -62,6 +62,24 @@ M = [
     ("st_agg_wrong_counter", "C17", "src/stats/aggregated.rs", "    fn add_classic_request(&mut self, _: &IpAddr) {\n        self.classic_requests += 1", "    fn add_classic_request(&mut self, _: &IpAddr) {\n        self.rfc_requests += 1", "break"),
     ("env_nonce_len_unchecked", "C14", "src/kms/envelope.rs", "if nonce_len != NONCE_LEN_BYTES || dek_len > ciphertext_blob.len() {", "if dek_len > ciphertext_blob.len() {", "break"),
     ("env_layout_swapped", "C14", "src/kms/envelope.rs", "        output.write_all(&wrapped_dek)?;\n        output.write_all(&raw_nonce)?;", "        output.write_all(&raw_nonce)?;\n        output.write_all(&wrapped_dek)?;", "break"),
+    # ---- config (C16) ----
+    ("cfg_port_as_u16", "C16", "src/config/file.rs", "config.port = u16::try_from(value.as_i64().unwrap()).expect(\"port out of range\")", "config.port = value.as_i64().unwrap() as u16", "break"),
+    ("cfg_env_workers_name", "C16", "src/config/environment.rs", "const ROUGHENOUGH_NUM_WORKERS: &str = \"ROUGHENOUGH_NUM_WORKERS\";", "const ROUGHENOUGH_NUM_WORKERS: &str = \"ROUGHENOUGH_WORKERS\";", "break"),
+    ("cfg_valid_batch_128", "C16", "src/config/mod.rs", "if cfg.batch_size() < 1 || cfg.batch_size() > 64 {", "if cfg.batch_size() < 1 || cfg.batch_size() > 128 {", "break"),
+    ("cfg_valid_fault_60", "C16", "src/config/mod.rs", "if cfg.fault_percentage() > 50 {", "if cfg.fault_percentage() > 60 {", "break"),
+    ("cfg_getter_swapped", "C16", "src/config/file.rs", "    fn fault_percentage(&self) -> u8 {\n        self.fault_percentage\n    }", "    fn fault_percentage(&self) -> u8 {\n        self.batch_size\n    }", "break"),
+    ("cfg_unknown_key_ignored", "C16", "src/config/file.rs", "                unknown => {\n                    return Err(Error::InvalidConfiguration(format!(\n                        \"unknown config key: {}\",\n                        unknown\n                    )));\n                }", "                unknown => {\n                    warn!(\"ignoring unknown config key: {}\", unknown);\n                }", "break"),
+    ("cfg_env_interface_from_port", "C16", "src/config/environment.rs", "if let Ok(interface) = env::var(ROUGHENOUGH_INTERFACE) {", "if let Ok(interface) = env::var(ROUGHENOUGH_PORT) {", "break"),
+    ("cfg_load_seed_ignores_kms", "C10", "src/kms/mod.rs", "        v => Err(error::Error::InvalidConfiguration(format!(\n            \"kms_protection '{}' requires KMS, but server was not compiled with KMS support\",\n            v\n        ))),", "        _ => Ok(config.seed()),", "break"),
+    # ---- client main(), reporter, grease sizes, health check ----
+    ("cl_nonce_reused", "C01", "src/bin/roughenough-client.rs", "    for _ in 0..num_requests {\n        let nonce = create_nonce(version);", "    let nonce0 = create_nonce(version);\n    for _ in 0..num_requests {\n        let nonce = nonce0.clone();", "break"),
+    ("cl_verify_args_swapped", "C01", "src/bin/roughenough-client.rs", "ResponseHandler::new(version, pub_key.clone(), resp.clone(), nonce.clone(), request)", "ResponseHandler::new(version, pub_key.clone(), resp.clone(), request.clone(), nonce)", "break"),
+    ("cl_nonce_len_classic_32", "C03", "src/bin/roughenough-client.rs", "            let mut nonce = [0u8; 64];", "            let mut nonce = [0u8; 32];", "break"),
+    ("rep_merge_replaced", "C17", "src/stats/reporter.rs", "                    .or_insert_with_key(|ip_addr| ClientStats::new(*ip_addr))\n                    .merge(&client);", "                    .or_insert_with_key(|ip_addr| ClientStats::new(*ip_addr))\n                    .clone_from(&client);", "break"),
+    ("gr_corrupt_keeps_nonce_twice", "C07", "src/grease.rs", "let mut random_sig: [u8; SIGNATURE_LENGTH as usize] = [0u8; SIGNATURE_LENGTH as usize];", "let mut random_sig: [u8; 1024] = [0u8; 1024];", "break"),
+    ("hc_accept_unwrap", "C08", "src/server.rs", "                match stream.write_all(HTTP_RESPONSE.as_bytes()) {\n                    Ok(_) => (),\n                    Err(e) => warn!(\"error writing health check {}\", e),\n                };", "                stream.write_all(HTTP_RESPONSE.as_bytes()).unwrap();", "break"),
+    ("h_config_helper", "C16", "src/config/mod.rs", "    if cfg.batch_size() < 1 || cfg.batch_size() > 64 {", "    if !(1..=64).contains(&cfg.batch_size()) {", "harmless"),
+    ("h_reporter_counter_type", "C17", "src/stats/reporter.rs", "let mut num_processed = 0;\n\n        while let", "let mut num_processed: i32 = 0;\n\n        while let", "harmless"),
     # ---- harmless edits: must never give a VIOLATION ----
     ("h_msg_extra_capacity", "C05", "src/message.rs", "let mut out = Vec::with_capacity(self.encoded_size());", "let mut out = Vec::with_capacity(self.encoded_size() + 0);", "harmless"),
     ("h_merkle_renamed_local", "C04", "src/merkle.rs", "let mut node_count = self.levels[0].len();", "let mut node_count: usize = self.levels[0].len();", "harmless"),
